@@ -110,12 +110,13 @@ static void c11_exec(const op_t *op, int opidx) {
 		int t = (int)item_get(it, "dst", 0);
 		if (t >= pw->n) t = pw->n - 1;
 		if (C.ntimers < 4 && !pw->shutdown_called) {
-			tp_udata_p u = &C.timers[C.ntimers];
+			int slot = C.ntimers++;     /* reserve first: two actors may register timers concurrently */
+			tp_udata_p u = &C.timers[slot];
 			memset(u, 0, sizeof(*u));
 			u->cb_func = timer_cb;
-			u->ident = (uintptr_t)(100 + C.ntimers);
+			u->ident = (uintptr_t)(100 + slot);
 			rc = tpt_ev_add_args(pw->thr[t], TP_EV_TIMER, 0, TP_FF_T_MSEC, (uint64_t)item_get(it, "ms", 5), u);
-			if (0 == rc) C.ntimers++;
+			(void)rc;
 		}
 	} else if (0 == strcmp(k, "wait")) {
 		sim_sleep_ns((uint64_t)item_get(it, "ns", 1000), "actor.wait");
